@@ -1,6 +1,7 @@
 # eng_cli.py - the `cli` engine (C09 C10 C11 C20): the built `packing` binary, its library path replayed
 # replica by replica in the harness (`vharness pipeline`), and the written files read back
 # (`vharness state-info`).
+import json
 import os
 import random
 import re
@@ -216,6 +217,41 @@ def run(prop, conf, params, tier, seed, broken_gate):
                     add(["C09"], kcase, "the output files differ between %d and %d worker threads" % (threads, t2))
         if len(samples) < 4:
             samples.append(case)
+    # C19: the command line's step size governs EVERY stage of a replica.  With --max-step-size 0 no parameter can move:
+    # the written structure is the starting structure (the library path with a zero step returns it unchanged)
+    if params.get("step_probe"):
+        for (group, shape, kind) in [("p2", "polygon:4", "hard"), ("p2mg", "trimer:0.637556:120:1", "lj"), ("p1", "circle", "hard")]:
+            for opt in ("--max-step-size 0 --steps 300 --inner-steps 100", "--max-step-size 0 --steps 40 --inner-steps 10 --kt-start 0.5"):
+                lib = pipeline(kind, shape, group, 2, opt, [1])
+                r = run_cli(binary, wd, group, shape, kind, 2, opt, 2, "s")
+                runs += 1
+                scase = "group=%s kind=%s shape=%s opt=[%s] replications=2" % (group, kind, shape, opt)
+                if lib["rc"] != 0 or "bestjson" not in lib:
+                    mism.append(dict(engine="cli", case="cli " + scase, what="vharness pipeline failed: " + lib["raw"]))
+                    continue
+                if r["json"] is None:
+                    add(["C20"], scase, "no structure written: " + r["err"][-200:].replace("\n", " "))
+                    continue
+                nontriv.add(scase)
+                try:
+                    a = json.loads(r["json"].decode("utf-8"))
+                    b = json.loads(lib["bestjson"])
+                except ValueError:
+                    add(["C11"], scase, "the written JSON cannot be parsed")
+                    continue
+                moved = []
+                def walk(x, y, path):
+                    if isinstance(x, dict) and isinstance(y, dict):
+                        for k in x:
+                            walk(x[k], y.get(k), path + "/" + k)
+                    elif isinstance(x, list) and isinstance(y, list) and len(x) == len(y):
+                        for i, (p, q) in enumerate(zip(x, y)):
+                            walk(p, q, path + "/%d" % i)
+                    elif x != y:
+                        moved.append("%s: %r -> %r" % (path, y, x))
+                walk(a, b, "")
+                if moved:
+                    add(["C19"], scase, "with --max-step-size 0 the written structure differs from the starting structure: " + "; ".join(moved[:3]))
     # C20: argument grid with zeros and errors
     errs = [
         ("--steps 0", "p2", "polygon:4", "hard", 2, 0), ("--steps 100 --inner-steps 0", "p1", "circle", "hard", 2, 0),
